@@ -33,6 +33,31 @@ PROPS = {
         "trusted_base": SRV_TB + ["encoding/json float round-trip of the statistics response"],
         "assumptions": ["the signature of the served record is checked by execution (glow.Verify over the Go signing bytes, whose layout is C15)"],
     },
+    "C04": {
+        "modules": ["Gca.Props.C04"],
+        "tie": ["startup_order", "save_equipment_order", "save_gca_key_order", "migrate_order", "startup_catchup", "verify_keys_server",
+                "layout_auth", "layout_report", "slot_banned", "slot_duplicate", "slot_empty", "capacity"],
+        "jobs": [srv("C04")],
+        "rule": "histories of registrations, authorizations incl. conflicts (bans), reports incl. banned slots, rotations, with a real restart (Close + NewGCAServer on the same directory) after random prefixes and repeated restarts, at clocks that need zero, one or several catch-up rotations; after every restart the full snapshot hash and at the end the files are compared with the model's load; non-trivial = not dropped/refused",
+        "trusted_base": SRV_TB + ["os file semantics (append, read whole file)"],
+        "assumptions": ["authorizations carry no NaN coordinates (JSON cannot; c04_nan_witness shows the hypothesis is needed)", "authorized-server list and migration orders are documented as not persisted"],
+    },
+    "C05": {
+        "modules": ["Gca.Props.C05"],
+        "tie": ["startup_order", "save_equipment_order", "save_gca_key_order", "migrate_order", "startup_catchup"],
+        "jobs": [srv("C05", (42, 120), (400, 250))],
+        "rule": "histories with restarts at operation boundaries, torn states materialised on the real directory (empty gcaPubKey.dat while unregistered, report file cut after any number of the records a start re-appends), and half of the scenarios killing the process (os.Exit inside a verifPoint) right after the file write of an authorization or of a rotation, followed by a start in a fresh process; the recovered snapshot and files are compared with the model's load of the predicted disk; witnesses F6/F7 replay the two repaired torn-file crashes; non-trivial = not dropped/refused",
+        "trusted_base": SRV_TB + ["the property's own crash model: a completed append/write is atomic and durable"],
+        "assumptions": ["SIGKILL at random instants is not run (the kill points are the persistence points and operation boundaries)"],
+    },
+    "C08": {
+        "modules": ["Gca.Props.C08"],
+        "tie": ["sync_bit_rule", "sync_byte_index", "resend_loop", "resend_bit", "resend_skip", "resend_energy", "resend_timeslot", "window", "storage"],
+        "jobs": [{"name": "relay", "cmd": ["relay", "{seed}"], "quick": [14, 25], "thorough": [200, 40]}],
+        "rule": "real client and real server with the harness between them: every original datagram is lost / delivered / duplicated / delayed at random, readings positive, negative (two's complement) and sentinel, rotations and server restarts in between, 0..2 failed sync rounds (server unreachable) before the fault-free one through a recording TCP proxy; retransmissions delivered in random order with duplicates and late originals; the property is evaluated on the real server's snapshot and every datagram/round is compared with the model; non-trivial = delivered or retransmitted datagrams",
+        "trusted_base": SRV_TB + ["deterministic signing (RFC 6979) - retransmissions are compared byte for byte by the server's duplicate test"],
+        "assumptions": ["readings that do not fit 32 signed bits are out of the property's scope (F17)"],
+    },
     "C06": {
         "modules": ["Gca.Props.C06"],
         "tie": ["verify_keys_server", "layout_auth", "layout_auth_read", "prefix_auth", "save_equipment_order"],
@@ -70,7 +95,8 @@ PROPS = {
         "modules": ["Gca.Props.C09"],
         "tie": ["save_before_origin", "save_beyond_range", "save_same", "save_occupied", "save_offset", "save_kinds",
                 "load_before_origin", "load_beyond_range", "load_offset", "load_kinds", "history_slots", "resend_energy"],
-        "jobs": [{"name": "hist", "cmd": ["hist", "{seed}"], "quick": [24, 90], "thorough": [300, 200]}],
+        "jobs": [{"name": "hist", "cmd": ["hist", "{seed}"], "quick": [24, 90], "thorough": [300, 200]},
+                 {"name": "emit", "cmd": ["emit", "{seed}"], "quick": [14, 12], "thorough": [150, 30]}],
         "rule": "random save/load sequences on the real history file for origins 0/100/5000/2^31/2^32-51 with values 0,1,2,3,500,2^31,2^32-1 and random; timeslots before the origin, at it, up to 6000 slots ahead; range boundaries 2^30-3..2^32-1 probed on an empty store; the file bytes are compared with the model after every save; non-trivial = save accepted or load non-zero",
         "trusted_base": [KERNEL, TRANSLATOR, HARNESS, "ReadAt/WriteAt semantics of os.File (sparse extension with zeros)"],
         "assumptions": ["known finding F17: values that differ only above bit 32 are both emitted (c09_mod32_witness); the emission theorem is stated modulo 2^32"],
@@ -79,7 +105,8 @@ PROPS = {
         "modules": ["Gca.Props.C10"],
         "tie": ["reply_min_length", "reply_freshness", "sync_bit_rule", "sync_byte_index", "resend_bit", "verify_keys_client",
                 "prefix_client_migration", "layout_auth_server", "layout_migration", "migration_location_bound", "server_location_bound"],
-        "jobs": [{"name": "reply", "cmd": ["reply", "{seed}"], "quick": [16, 60], "thorough": [200, 200]}, srv("C17", (14, 120), (200, 250))],
+        "jobs": [{"name": "reply", "cmd": ["reply", "{seed}"], "quick": [16, 60], "thorough": [200, 200]}, srv("C17", (14, 120), (200, 250)),
+                 srv("C10", (14, 120), (200, 250))],
         "rule": "genuine replies of the real server (reports at window edges, 0..3 servers with locations 0..255 and ban flags, with/without migration orders of 0..3 servers incl. badly signed ones) fed to the real client parser through a scripted TCP server, plus per genuine reply: every kind of mutation (single bit flips incl. the length prefix, truncation, extension, wrong server key, wrong GCA, other device, unknown id) and rogue-server variants re-signed with the server's real key (bit flips, time shifts around +-24h, random bodies of critical lengths, truncated entry regions with inflated location length); non-trivial = parser accepted",
         "trusted_base": [KERNEL, TRANSLATOR, HARNESS, CRYPTO, "TCP framing (io.ReadFull)"],
         "assumptions": ["known finding F19: replies longer than 65535 bytes cannot be framed (explicit hypothesis of the round-trip theorems)"],
@@ -109,6 +136,22 @@ PROPS = {
         "rule": "client: real sync rounds delivering server lists (re-announcements with changed ports, bans, un-ban attempts, new servers, entries not signed by the GCA) and migration orders (valid, for another device, outer signature by the wrong GCA, inner signatures by the wrong GCA, empty), with client restarts; memory, files and the reloaded state compared with the model; server: POST sequences of server authorizations and migration orders in the C07-focused histories; non-trivial = round synced / post accepted",
         "trusted_base": [KERNEL, TRANSLATOR, HARNESS, CRYPTO],
         "assumptions": ["the server-side list is not persisted (documented in the code), so monotonicity is stated between restarts"],
+    },
+    "C13": {
+        "modules": ["Gca.Props.C13", "Gca.LockSkelSound"],
+        "tie": ["locks_entries_ok", "locks_assuming_ok", "locks_ctors_ok", "locks_ctor_callers", "single_sections", "impact_guard", "impact_index"],
+        "jobs": [srv("C13")],
+        "rule": "at every verifPoint between two critical sections of a multi-section operation (sync reply, statistics, impact job, server authorization) every interfering operation of the menu (report, rotation, ban) is injected on the real server and the answers/final state are compared with the model's sequential explanation; every scenario is its own process, so any panic is seen; the lock discipline itself is decided on the regenerated skeletons of all 164 functions and function literals; non-trivial = not dropped/refused",
+        "trusted_base": SRV_TB + ["the skeleton extractor (go/ast walk: lock/unlock/defer/return/exit/guarded-field access/call/if/loop) and its table of guarded fields"],
+        "assumptions": ["the Go memory model and scheduler are not modelled: data-race freedom is the lockset condition on the skeletons (partial)", "randomised many-goroutine runs under the race detector are not part of the check"],
+    },
+    "C14": {
+        "modules": ["Gca.Props.C14"],
+        "tie": ["public_files", "archive_order", "layout_report", "layout_auth", "single_sections", "rate_limit", "rate_expiry", "archive_limit"],
+        "jobs": [{"name": "archive", "cmd": ["archive", "{seed}"], "quick": [28, 8], "thorough": [300, 16]}],
+        "rule": "archives downloaded while write bursts (new device + first report, registration + first device, rotation, reports) are injected at the verifPoint before each file; every archive is unzipped, each file checked to be a record-aligned prefix of the file on disk, every report/authorization/statistics record re-verified with glow.Verify against the archived keys, and every file scanned for the private key; request bursts judged on the limiter's own admission times; non-trivial = archives with at least one injection",
+        "trusted_base": SRV_TB + ["archive/zip", "the closure oracle of this run is evaluated in the harness (Go), the theorem is about the model"],
+        "assumptions": ["a concurrent reader sees a record-aligned prefix of an append-only file (the property's own assumption)"],
     },
     "C15": {
         "modules": ["Gca.Props.C15"],
